@@ -2,6 +2,7 @@ package main
 
 import (
 	"bytes"
+	"fmt"
 	"go/ast"
 	"go/constant"
 	"go/printer"
@@ -831,5 +832,166 @@ func factsShared(repo string) {
 	sort.Strings(all)
 	emit("def packageVars : List String := %s", leanStrList(all))
 	// assignments to package-level vars outside init / declarations
+	emit("")
+}
+
+// ---------------------------------------------------------------- buffer pool protocol
+
+// poolEventsOf lists, in evaluation order, the pool events of one expression or simple statement:
+// "get" = <pool>.Get(), "put" = <pool>.Put(..), "use" = a call that is handed the dereferenced buffer.
+func poolEventsOf(n ast.Node, pool string) []string {
+	var evs []string
+	if n == nil {
+		return nil
+	}
+	ast.Inspect(n, func(x ast.Node) bool {
+		if _, ok := x.(*ast.FuncLit); ok {
+			return false
+		}
+		ce, ok := x.(*ast.CallExpr)
+		if !ok {
+			return true
+		}
+		switch {
+		case isSel(ce.Fun, pool, "Get"):
+			evs = append(evs, "get")
+		case isSel(ce.Fun, pool, "Put"):
+			evs = append(evs, "put")
+		default:
+			for _, a := range ce.Args {
+				if st, ok := a.(*ast.StarExpr); ok {
+					if _, ok := st.X.(*ast.Ident); ok {
+						evs = append(evs, "use")
+					}
+				}
+			}
+		}
+		return true
+	})
+	return evs
+}
+
+// poolPaths enumerates the control-flow paths of a loop-free function body and the pool events along
+// each, deferred calls included (run at every return, last registered first).  A construct it does
+// not understand contributes the event "unknown:<kind>", which no legal schedule contains.
+func poolPaths(body *ast.BlockStmt, pool string) [][]string {
+	type state struct {
+		evs    []string
+		defers [][]string
+	}
+	var done [][]string
+	finish := func(s state) {
+		evs := append([]string{}, s.evs...)
+		for i := len(s.defers) - 1; i >= 0; i-- {
+			evs = append(evs, s.defers[i]...)
+		}
+		done = append(done, evs)
+	}
+	var runBlock func(sts []ast.Stmt, in []state) []state
+	runBlock = func(sts []ast.Stmt, in []state) []state {
+		cur := in
+		for _, st := range sts {
+			var next []state
+			for _, s := range cur {
+				s := state{append([]string{}, s.evs...), append([][]string{}, s.defers...)}
+				switch v := st.(type) {
+				case *ast.ReturnStmt:
+					s.evs = append(s.evs, poolEventsOf(v, pool)...)
+					finish(s)
+				case *ast.DeferStmt:
+					if fl, ok := v.Call.Fun.(*ast.FuncLit); ok {
+						s.defers = append(s.defers, poolEventsOf(fl.Body, pool))
+					} else {
+						s.defers = append(s.defers, poolEventsOf(v.Call, pool))
+					}
+					next = append(next, s)
+				case *ast.IfStmt:
+					s.evs = append(s.evs, poolEventsOf(v.Init, pool)...)
+					s.evs = append(s.evs, poolEventsOf(v.Cond, pool)...)
+					next = append(next, runBlock(v.Body.List, []state{s})...)
+					switch e := v.Else.(type) {
+					case nil:
+						next = append(next, s)
+					case *ast.BlockStmt:
+						next = append(next, runBlock(e.List, []state{s})...)
+					default:
+						next = append(next, runBlock([]ast.Stmt{e}, []state{s})...)
+					}
+				case *ast.BlockStmt:
+					next = append(next, runBlock(v.List, []state{s})...)
+				case *ast.AssignStmt, *ast.ExprStmt, *ast.DeclStmt, *ast.IncDecStmt, *ast.EmptyStmt:
+					s.evs = append(s.evs, poolEventsOf(v, pool)...)
+					next = append(next, s)
+				default:
+					s.evs = append(s.evs, fmt.Sprintf("unknown:%T", st))
+					next = append(next, s)
+				}
+			}
+			cur = next
+		}
+		return cur
+	}
+	for _, s := range runBlock(body.List, []state{{}}) {
+		finish(s) // fell off the end
+	}
+	return done
+}
+
+func factsPool(p *pkg) {
+	emit("-- copy.go: the buffer pool protocol of every function that takes a buffer from a package-level sync.Pool,")
+	emit("-- as pool events along each control-flow path (deferred calls included)")
+	pools := map[string]bool{}
+	for _, fn := range p.sortedFiles() {
+		for _, dd := range p.files[fn].Decls {
+			gd, ok := dd.(*ast.GenDecl)
+			if !ok || gd.Tok != token.VAR {
+				continue
+			}
+			for _, s := range gd.Specs {
+				vs := s.(*ast.ValueSpec)
+				for i, id := range vs.Names {
+					txt := ""
+					if i < len(vs.Values) {
+						txt = exprString(p.fset, vs.Values[i])
+					}
+					if vs.Type != nil {
+						txt += " " + exprString(p.fset, vs.Type)
+					}
+					if strings.Contains(txt, "sync.Pool") {
+						pools[id.Name] = true
+					}
+				}
+			}
+		}
+	}
+	var rows []string
+	for _, fn := range p.sortedFiles() {
+		if strings.HasSuffix(fn, "_test.go") || strings.HasPrefix(filepath.Base(fn), "verif_") {
+			continue
+		}
+		for _, dd := range p.files[fn].Decls {
+			fd, ok := dd.(*ast.FuncDecl)
+			if !ok || fd.Body == nil {
+				continue
+			}
+			for pool := range pools {
+				touches := false
+				for _, ev := range poolEventsOf(fd.Body, pool) {
+					touches = touches || ev == "get" || ev == "put"
+				}
+				if !touches {
+					continue
+				}
+				var ps []string
+				for _, path := range poolPaths(fd.Body, pool) {
+					ps = append(ps, leanStrList(path))
+				}
+				sort.Strings(ps)
+				rows = append(rows, fmt.Sprintf("(%s, [%s])", strconv.Quote(fd.Name.Name), strings.Join(ps, ", ")))
+			}
+		}
+	}
+	sort.Strings(rows)
+	emit("def poolPaths : List (String × List (List String)) := [%s]", strings.Join(rows, ", "))
 	emit("")
 }
